@@ -504,3 +504,4 @@ def shards(tier):
 
 
 SUBCHECKS = [SubCheck("history", judge, shards, machine=machine)]
+EXPECTED_CLASSES = ["history/iodata-import", "history/call-after-different-call", "history/valid-after-invalid", "history/call-after-set_param+renormalise"]
